@@ -450,17 +450,28 @@ func (s *Store) saveIndex() error {
 
 	// 1. Add descriptors that are associated with tags
 	// Note: One descriptor can be associated with multiple tags.
+	// On load the last entry of a digest decides what the digest resolves to.
+	// Entries that differ from the current by-digest descriptor (same content
+	// tagged under another media type) therefore go first.
+	var current []ocispec.Descriptor
 	for ref, desc := range refMap {
 		if ref != desc.Digest.String() {
+			byDigest, ok := refMap[desc.Digest.String()]
+			isCurrent := !ok || content.Equal(byDigest, desc)
 			annotations := make(map[string]string, len(desc.Annotations)+1)
 			maps.Copy(annotations, desc.Annotations)
 			annotations[ocispec.AnnotationRefName] = ref
 			desc.Annotations = annotations
-			manifests = append(manifests, desc)
+			if isCurrent {
+				current = append(current, desc)
+			} else {
+				manifests = append(manifests, desc)
+			}
 			// mark the digest as tagged for deduplication in step 2
 			tagged.Add(desc.Digest)
 		}
 	}
+	manifests = append(manifests, current...)
 	// 2. Add descriptors that are not associated with any tag
 	for ref, desc := range refMap {
 		if ref == desc.Digest.String() && !tagged.Contains(desc.Digest) {
